@@ -103,6 +103,18 @@ Fixpoint render_lines (ls : list (bytes * eol)) (final_nl : bool) : bytes :=
       end
   end.
 
+Fixpoint with_eols (ls : list bytes) (es : list eol) : list (bytes * eol) :=
+  match ls with
+  | [] => []
+  | l :: r => match es with
+              | [] => (l, LF) :: with_eols r []
+              | e :: es' => (l, e) :: with_eols r es'
+              end
+  end.
+
+Definition blank_lines (es : list eol) : list (bytes * eol) := map (fun e => ([], e)) es.
+
+
 Definition no_nl (l : bytes) : bool := forallb (fun b => negb (b =? NL)) l.
 Definition no_trailing_cr (l : bytes) : bool := negb (last l 0 =? CR).
 Definition line_ok (le : bytes * eol) : bool :=
@@ -137,6 +149,52 @@ Fixpoint has_prefix (p s : bytes) : bool :=
 
 Fixpoint contains_byte (c : N) (l : bytes) : bool :=
   match l with [] => false | b :: r => (b =? c) || contains_byte c r end.
+
+(* strings.TrimSpace: removes leading and trailing runes with unicode.IsSpace (ASCII \t \n \v \f \r ' ',
+   U+0085, U+00A0, U+1680, U+2000-200A, U+2028, U+2029, U+202F, U+205F, U+3000 in UTF-8). *)
+Definition ascii_space (c : N) : bool :=
+  (c =? 9) || (c =? 10) || (c =? 11) || (c =? 12) || (c =? 13) || (c =? 32).
+Definition uni_space2 (c d : N) : bool := (c =? 194) && ((d =? 133) || (d =? 160)).
+Definition uni_space3 (c d e : N) : bool :=
+  ((c =? 225) && (d =? 154) && (e =? 128)) ||
+  ((c =? 226) && (d =? 128) && (((128 <=? e) && (e <=? 138)) || (e =? 168) || (e =? 169) || (e =? 175))) ||
+  ((c =? 226) && (d =? 129) && (e =? 159)) ||
+  ((c =? 227) && (d =? 128) && (e =? 128)).
+
+Fixpoint trim_left (s : bytes) : bytes :=
+  match s with
+  | [] => []
+  | c :: r =>
+      if ascii_space c then trim_left r
+      else match r with
+           | [] => s
+           | d :: r2 =>
+               if uni_space2 c d then trim_left r2
+               else match r2 with
+                    | [] => s
+                    | e :: r3 => if uni_space3 c d e then trim_left r3 else s
+                    end
+           end
+  end.
+Definition all_space (s : bytes) : bool := is_nil (trim_left s).
+(* the longest suffix that is a sequence of white-space runes is removed *)
+Fixpoint trim_right (s : bytes) : bytes :=
+  match s with
+  | [] => []
+  | c :: r => if all_space s then [] else c :: trim_right r
+  end.
+Definition trim_space (s : bytes) : bytes := trim_right (trim_left s).
+
+(* a[i] with Go's bounds check *)
+Definition index {A} (l : list A) (i : nat) : outcome A :=
+  match nth_error l i with Some x => Ok x | None => Panic end.
+Definition bind {A B} (o : outcome A) (f : A -> outcome B) : outcome B :=
+  match o with Ok a => f a | Err e => Err e | Panic => Panic end.
+
+(* bytes in 33..126 / printable text (32..126 and tab) / blanks (space, tab) *)
+Definition graphic (c : N) : bool := (33 <=? c) && (c <=? 126).
+Definition text_byte (c : N) : bool := ((32 <=? c) && (c <=? 126)) || (c =? 9).
+Definition blank_byte (c : N) : bool := (c =? 32) || (c =? 9).
 
 (* association list standing for a Go map[string]string: newest binding first, lookup of a missing
    key gives "" *)
